@@ -287,6 +287,14 @@ def run(c, chk):
     section_handover(c, chk, model)
     error_always_delivered(c, chk)
     whole_source_scanned(c, chk)
+    if not isinstance(chk, report.SubCheck):
+        # R6.8: "includes nested too deeply" is a rejection like any other: it is reported (with the position of the include()
+        # line) on every path that would otherwise push one level too many (rule R13.2 of C13: every push is behind the depth test)
+        from . import c13 as _c13d
+        chk.rule('R6.8', 'an include nested too deeply is refused with its diagnostic before anything is pushed (rule R13.2 of C13): the depth test dominates every write into the include stack')
+        sub13 = report.SubCheck(chk, 'R6.8', 'C13', only=('R13.2',))
+        _c13d.run(c, sub13)
+        sub13.done('include depth')
     # parse bracket: cfg_parse_fp sets line = 1 before the first token and maps STATE_ERROR to the parse-error code
     pfn = c.need('cfg_parse_fp')
     ex = sym.Explorer(c.modules, max_visits=2, mod_sets=c.mod_sets)
